@@ -41,8 +41,11 @@ func (path Path) String() string {
 }
 
 func (path *Path) UnmarshalJSON(b []byte) error {
+	// numbers are kept as written: through float64 an index beyond 2^53 would come back changed
 	var vs []interface{}
-	err := json.Unmarshal(b, &vs)
+	dec := json.NewDecoder(bytes.NewReader(b))
+	dec.UseNumber()
+	err := dec.Decode(&vs)
 	if err != nil {
 		return err
 	}
@@ -54,8 +57,14 @@ func (path *Path) UnmarshalJSON(b []byte) error {
 			*path = append(*path, PathName(v))
 		case int:
 			*path = append(*path, PathIndex(v))
-		case float64:
-			*path = append(*path, PathIndex(int(v)))
+		case json.Number:
+			if i, err := v.Int64(); err == nil {
+				*path = append(*path, PathIndex(i))
+			} else if f, err := v.Float64(); err == nil {
+				*path = append(*path, PathIndex(int(f)))
+			} else {
+				return err
+			}
 		default:
 			return fmt.Errorf("unknown path element type: %T", v)
 		}
